@@ -49,6 +49,35 @@ def stage_mc_only(ctx, E, name, module, cfg, workers=16, timeout=3000, extra=Non
     return res
 
 
+def coverage_gate(ctx, E, module, cfg, expect_zero=(), workers=8, timeout=1500):
+    """Vacuity gate (thorough tier): TLC -coverage 1 on a bounded configuration of a state-machine spec; every named
+    action of Next must have been taken, except those listed as disabled by the configuration's constants. An action
+    that is never taken means the properties were not exercised on it: that is a fault of the specification (exit 2)."""
+    if ctx.tier != "thorough":
+        return
+    res = E.run_tlc(ctx.work, "cov_" + module, module, cfg, workers=workers, timeout=timeout, extra=["-coverage", "1"],
+                    env={"OUTFILE": os.path.join(ctx.work, "cov_%s.ndjson" % module)})
+    E.tlc_ok(res, "cov_" + module)
+    import re
+    last = {}
+    for l in res["out"].splitlines():
+        m = re.match(r"^<(\w+) line \d+, col \d+ to line \d+, col \d+ of module (\w+)>: (\d+):(\d+)\s*$", l)
+        if m:
+            last[m.group(1)] = (int(m.group(3)), int(m.group(4)))
+    zero = sorted(a for a, (d, g) in last.items() if g == 0 and a not in expect_zero)
+    ctx.stage_info.append({"stage": "coverage " + module + " / " + cfg, "actions": {a: g for a, (d, g) in last.items()},
+                           "never_taken_by_configuration": sorted(a for a in last if last[a][1] == 0 and a in expect_zero)})
+    try:
+        os.remove(os.path.join(ctx.work, "cov_%s.ndjson" % module))
+    except OSError:
+        pass
+    if not last:
+        raise E.Machinery("coverage gate: no action statistics in TLC's output for %s" % module)
+    if zero:
+        raise E.Machinery("coverage gate: action(s) %s of %s are never taken in %s (vacuous model)" % (zero, module, cfg))
+    E.log("coverage %s: %d actions, all taken%s" % (module, len(last), (" except " + ", ".join(sorted(expect_zero)) + " (disabled by the constants)") if expect_zero else ""))
+
+
 def stage_record_trace(ctx, E, name, module, cfg, prop=None, drv=None, timeout=3000, rec_args=None, env=None,
                        heap=None, chunk=None, merge=False, optional=False):
     """I->S: record events from the real code, validate them with the *_Trace spec."""
@@ -202,6 +231,7 @@ def run_C12(ctx, E):
     ctx.exhaustive = True
     # design level: Booth's algorithm (the algorithm poly chose) as a state machine against the declarative definition
     stage_mc_only(ctx, E, "booth", "Booth_MC", "Booth_MC_%s.cfg" % ctx.tier)
+    coverage_gate(ctx, E, "Booth_MC", "Booth_MC_quick.cfg")
     for suffix in ("", "3", "4"):
         stage_mc_replay(ctx, E, "mc%s" % (suffix or "2"), "C12_MC", "C12_MC_%s%s.cfg" % (ctx.tier, suffix))
     stage_record_trace(ctx, E, "rot", "C12_Trace", "C12_Trace.cfg", heap="8g")
@@ -269,6 +299,7 @@ def run_C07(ctx, E):
     stage_mc_replay(ctx, E, "eligible", "C07_MC", "C07_MC_%s.cfg" % ctx.tier)
     # histories: one live table re-weighted in place and optimised in between (what Optimize emits depends on the current weights only)
     stage_mc_replay(ctx, E, "session", "C07_Session", "C07_Session_%s.cfg" % ctx.tier, prop="C07S")
+    coverage_gate(ctx, E, "C07_Session", "C07_Session_quick.cfg")
     stage_record_trace(ctx, E, "opt", "C07_Trace", "C07_Trace.cfg", heap="8g")
     # the specification beyond the listed properties: GetCodingRegions, random.ProteinSequence, codon-table JSON files
     # (advisory: these calls are not part of property C07, so a mismatch is reported as a NOTE, never as a C07 violation)
@@ -289,6 +320,7 @@ def run_C09(ctx, E):
     os.environ["C09_EVENTS_OUT"] = evfile
     # design level: every interleaving of goroutines / channel / WaitGroup / collector
     stage_mc_only(ctx, E, "conc", "LigationConc", "LigationConc_%s.cfg" % ctx.tier, timeout=1500)
+    coverage_gate(ctx, E, "LigationConc", "LigationConc_quick.cfg", expect_zero=("CollTake",))
     if ctx.tier == "thorough":
         # design alternative named in the code's own comment: a buffered construct channel (capacity 2) keeps every property
         stage_mc_only(ctx, E, "conc_buffered", "LigationConc", "LigationConc_buffered.cfg", timeout=1500)
@@ -365,6 +397,7 @@ def run_C09(ctx, E):
 
 def run_C13(ctx, E):
     stage_mc_replay(ctx, E, "stream", "C13_MC", "C13_MC_%s.cfg" % ctx.tier)
+    coverage_gate(ctx, E, "C13_MC", "C13_MC_quick.cfg")
     # directed schedules: every interleaving of reader hand-outs and consumer receives, driven through the real parser
     _, summ = stage_mc_replay(ctx, E, "sched", "C13_Sched", "C13_Sched_%s.cfg" % ctx.tier, prop="C13D")
     E.log("sched: %d of %d schedules followed step by step by the real parser (the rest judged on the outcome only)"
@@ -378,6 +411,7 @@ def run_C13(ctx, E):
 
 def run_C20(ctx, E):
     stage_mc_replay(ctx, E, "stream", "UniprotStream", "UniprotStream_%s.cfg" % ctx.tier)
+    coverage_gate(ctx, E, "UniprotStream", "UniprotStream_quick.cfg", expect_zero=("SendErrPartial",))
     stage_expect_violation(ctx, E, "breakonly", "UniprotStream", "UniprotStream_breakonly.cfg",
                            "Termination (design alternative 'report the error, break, close both': deadlocks an "
                            "unbuffered error channel under the documented consumer)")
